@@ -1,10 +1,15 @@
 """C06 — mserialize property (see DESIGN.md section 4/C06)."""
 from mser_common import *
+import gen_tags, runner
+DRIVERS = ['drv_reader']
+DRIVER_OPTS = {'drv_reader': {'extra_src': ['$REPO/bin/printers.cpp']}}
 TRUSTED = TRUSTED_COMMON
 ASSUMPTIONS = ['struct, enum and field names contain no ` or \' and are bracket-balanced (true of C++ identifiers and template names)', 'values nested at most 2048 deep (the documented guard)',
-               'hand-written recursive tags are exercised by the reader properties, not by the generated programs']
+               'hand-written tags: struct names are looked up by whole name (a back-reference {N} means the struct defined as {N`...} in the same tag)']
 RULE = ('the same generated programs as C04; (a) model vs program: mserialize::tag<T>(), the full callback sequence of mserialize::visit with a recording visitor (kinds, sizes, element tags, '
         'field names, discriminators, enumerator names / raw hex, every leaf with its exact kind and value, repeat collapsing above 32 singular elements) and the bytes left; the text of ToStringVisitor; '
+        '(a2) hand-written tags the macros cannot produce: recursive structs referring to themselves by name inside optionals / sequences, surrounded by structs whose names extend or are extended by theirs, '
+        'plus corrupted variants of those tags and bytes: model visit vs mserialize::visit on the same (tag, bytes), callbacks and ToString text; '
         '(b) program alone: tag == independent python rendering of the documented grammar; callbacks == those computed directly from the value; all bytes consumed. non-trivial as in C04')
 def oracle(c):
     i = c['impl']; t, v = c['info']['t'], c['info']['v']
@@ -12,7 +17,27 @@ def oracle(c):
     want = ','.join(ref_visit(t, v)) + ';0'
     if i['visit'] != want: return 'visitation does not report the value: expected %s' % want[:300]
     return True
-def run(ctx): return run_mser_property(ctx, ['tag', 'visit', 'text'], oracle, 'type tag / visitation disagree with serialization on the implementation', floats=False)
+def tag_oracle(want):
+    def f(outs):
+        got = outs[0].split(' ')
+        if got[0] != 'ok' or got[1] != want: return 'visitation of the hand-written recursive tag does not report the value: expected ok %s' % want[:400]
+        return True
+    return f
+def handwritten(ctx):
+    r = runner.Run(ctx, 'drv_reader'); rng = random.Random(ctx.seed * 31 + 6)
+    for _ in range(ctx.n(600, 6000)):
+        line, want, interesting = gen_tags.make_case(rng)
+        r.add_corr(line, ['hand_recursive'] + (['prefix_named_struct_before_recursive_def'] if interesting else []), nontrivial=interesting)
+        r.add_prop([line], tag_oracle(want), 'visit of a hand-written recursive tag disagrees with the serialized value', ['hand_recursive'], nontrivial=interesting)
+        if rng.random() < 0.5: r.add_corr(gen_tags.mutate(rng, line), ['hand_corrupted'])
+    return r.execute()
+def run(ctx):
+    res = run_mser_property(ctx, ['tag', 'visit', 'text'], oracle, 'type tag / visitation disagree with serialization on the implementation', floats=False)
+    h = handwritten(ctx)
+    for k in ('evaluations', 'distinct', 'validated'): res[k] += h[k]
+    res['stats'].update(h['stats']); res['violations'] += h['violations']; res['broken_what'] += h['broken_what']; res['samples'] += h['samples'][:1]
+    if h.get('corr_broken'): res['corr_broken'] = True; res.setdefault('first_mismatch', h['first_mismatch'])
+    return res
 def search(ctx):
     c2 = Ctx(ctx.pid, 'quick', ctx.seed + 1, random.Random(ctx.seed + 99), ctx.drivers, True); c2.n = lambda q, t: 2560 if q > 10 else q
     return [v for v in run(c2)['violations'] if v[1]]
